@@ -165,6 +165,7 @@ def run(db, tier):
     rep.check(ok, "R-CMP-JMP", "TwoPart|cmp-then-jmp", cj.loc, "the comparison instruction is emitted before the jump instruction",
               "the TwoPart arm does not emit cmp_opcode first and jmp_opcode second")
     _cond_tables(db, rep)
+    _symbolic_rules(db, rep)
     # a register the explicit-register collector misses is handed out as a temporary and clobbered (rule shared with C05)
     from props import c05
     rep.rule("R-TRAVERSAL", "register collection and register substitution walk the same LowerArg shapes, recursively through DiffSwitch (shared with C05)")
@@ -618,3 +619,128 @@ def _released_by_parent(db, cl, start):
         if it_ok and not any(r in bypass for r in rets):
             return True
     return False
+
+
+def _split_args(txt):
+    """top-level comma split of a rendered argument list"""
+    out, depth, cur = [], 0, ""
+    for ch in txt:
+        if ch in "([{":
+            depth += 1
+        elif ch in ")]}":
+            depth -= 1
+        if ch == "," and depth == 0:
+            out.append(cur.strip())
+            cur = ""
+        else:
+            cur += ch
+    if cur.strip():
+        out.append(cur.strip())
+    return out
+
+
+def _strip_tmps(t):
+    """results of define_temporary / compute_temporary_expr are already-evaluated temporaries, not re-evaluations of the expression"""
+    if isinstance(t, tuple):
+        if len(t) == 3 and t[0] == "app" and t[1] == "?" and t[2] and isinstance(t[2][0], tuple) and t[2][0][0] == "app" \
+                and t[2][0][1].split("::")[-1] in ("define_temporary", "compute_temporary_expr", "allocate_temporary"):
+            return ("sym", "<tmp>")
+        return tuple(_strip_tmps(x) for x in t)
+    return t
+
+
+def _symbolic_rules(db, rep):
+    """R-OPERAND-ORDER / R-EARLY-STORE by symbolic evaluation of the lowering functions (rules/symeval.py)"""
+    import re
+    from rules import symeval as SY
+    L = S
+    SY.set_aliases([])
+    rep.rule("R-OPERAND-ORDER", "splitting a comparison into temporary + comparison keeps each operand on its own side: the temporary of <A> "
+                                "takes A's place, the temporary of <B> takes B's place, atoms go to the intrinsic as (a, op, b)")
+    rep.rule("R-EARLY-STORE", "on every path of the emitted code, an expression that is evaluated after the destination variable has been "
+                              "written is guarded by !expr_uses_var(expression, destination) (label/jump structure of the emitted sequence "
+                              "is followed: a store on one branch does not reach the other)")
+    eff = ("lower_assign_op", "lower_cond_jump", "lower_uncond_jump", "lower_cond_jump_comparison", "lower_cond_jump_intrinsic",
+           "define_temporary", "undefine_temporary", "lower_assign_direct_binop", "lower_assign_direct_unop", "lower_assign_direct_ternary",
+           "compute_temporary_expr", "lower_intrinsic_by_opcode", "lower_assign_diff_switch", "lower_assign_op_intrinsic")
+    # ---- R-OPERAND-ORDER
+    f = db.fn(L + "lower_cond_jump_comparison")
+    rep.fn(f)
+    paths = [p for p in SY.fn_paths(db, f.id, effect_calls=eff) if p[2] is None]
+    tmp_a = "?(define_temporary(self, stmt_data, ?(classify_expr(self, a)).NeedsElaboration.0)).1"
+    tmp_b = "?(define_temporary(self, stmt_data, ?(classify_expr(self, b)).NeedsElaboration.0)).1"
+    seen = {}
+    for conds, events, fl, st in paths:
+        arm = None
+        for k, v, _ in conds:
+            if k.startswith("match (?(classify_expr(self, a)), ?(classify_expr(self, b)))"):
+                arm = v
+        for e in events:
+            if e[0] == "effect" and e[1] in ("lower_cond_jump_comparison", "lower_cond_jump_intrinsic"):
+                args = [SY.render(x) for x in e[2]]
+                seen.setdefault(arm, []).append((e[1], args))
+    want = {
+        "(NeedsElaboration,_)": ("lower_cond_jump_comparison", 4, tmp_a, 6, "b"),
+        "(Simple,NeedsElaboration)": ("lower_cond_jump_comparison", 4, "a", 6, tmp_b),
+        "(Simple,Simple)": ("lower_cond_jump_intrinsic", 3, "?(classify_expr(self, a)).Simple.0", 5, "?(classify_expr(self, b)).Simple.0"),
+    }
+    for arm, (callee, ia, ea, ib, eb) in want.items():
+        calls = seen.get(arm, [])
+        ok = bool(calls) and all(c == callee and len(a) > ib and a[ia] == ea and a[ib] == eb for c, a in calls)
+        rep.check(ok, "R-OPERAND-ORDER", "lower_cond_jump_comparison|%s" % arm, f.loc, "left stays left (%s), right stays right (%s)" % (ea[:40], eb[:40]),
+                  "in the %s case the comparison is continued as %s: the operands change sides while the operator stays the same" % (
+                      arm, [(c, a[ia] if len(a) > ia else None, a[ib] if len(a) > ib else None) for c, a in calls]))
+    # ---- R-EARLY-STORE
+    n_fn = 0
+    for g in sorted(db.fns.values(), key=lambda g: g.line):
+        if not g.id.startswith(L) or g.closure:
+            continue
+        params = [p.get("n") for p in g.d.get("hparams", [])]
+        if "var" not in params:
+            continue
+        exprs = [p for p in params if p in ("cond", "left", "right", "a", "b", "rhs", "whole_expr", "cases")]
+        if not exprs:
+            continue
+        n_fn += 1
+        rep.fn(g)
+        try:
+            paths = [p for p in SY.fn_paths(db, g.id, sinks=("self.out",), fresh_calls=("GensymContext::gensym",), effect_calls=eff) if p[2] is None]
+        except RuntimeError as e:
+            raise Broken("symbolic evaluation of %s failed: %s" % (g.id, e))
+        bad = None
+        n_paths = 0
+        for conds, events, fl, st in paths:
+            n_paths += 1
+            cd = dict((k, v) for k, v, _ in conds)
+            written = False           # None = unreachable
+            at_label = {}
+            for e in events:
+                txt = SY.render_event(e)
+                if e[0] == "emit" and "LowerStmt::Label" in txt:
+                    m = re.search(r"label: ([^,}]+)", txt)
+                    lab = m.group(1) if m else txt
+                    inc = at_label.get(lab)
+                    written = inc if written is None else (written or bool(inc))
+                    continue
+                if e[0] != "effect":
+                    continue
+                args = [SY.render(_strip_tmps(x)) for x in e[2]]
+                dest = [m.group(1) for a in args for m in [re.search(r"destination: ([^,}]+)", a)] if m]
+                used = [x for x in exprs if any(re.search(r"(^|[^A-Za-z_.])%s($|[^A-Za-z_])" % re.escape(x), re.sub(r"\b%s\.span\b" % re.escape(x), "", a)) for a in args[1:])]
+                if written:
+                    for x in used:
+                        key = "expr_uses_var(%s, var, self.ctx)" % x
+                        if cd.get(key) is not False and bad is None:
+                            bad = (x, e[1], sorted((k, v) for k, v in cd.items() if "expr_uses_var" in k))
+                if e[1] in ("lower_cond_jump",) and dest:
+                    at_label[dest[0]] = bool(at_label.get(dest[0])) or bool(written)
+                elif e[1] == "lower_uncond_jump" and dest:
+                    at_label[dest[0]] = bool(at_label.get(dest[0])) or bool(written)
+                    written = None
+                elif written is not None and e[1] in ("lower_assign_op", "lower_assign_direct_binop", "lower_assign_direct_unop", "lower_assign_direct_ternary",
+                                                      "compute_temporary_expr", "lower_assign_op_intrinsic", "lower_assign_diff_switch") and "var" in args[1:5]:
+                    written = True
+        rep.check(bad is None, "R-EARLY-STORE", g.id.rsplit("::", 1)[-1], g.loc, "%d emitted paths: nothing is evaluated after a store to the destination without the guard" % n_paths,
+                  "`%s` is evaluated (by %s) after the destination variable was already written, and the path is not guarded by !expr_uses_var(%s, var) (guards on this path: %s)" % (
+                      bad[0], bad[1], bad[0], bad[2]) if bad else "")
+    rep.floor("lowering functions with a destination variable", n_fn, 5)
